@@ -258,6 +258,15 @@ def typed_calls(rng: random.Random, full: bool) -> Iterator[Tuple[str, str, List
         for data in ('__absent__', None, {'k': [1]}, 'text'):
             yield 'raises-library-error-class', 'raiselib', [name] if data == '__absent__' else {'name': name, 'data': data}
     yield 'raises-library-error-class', 'raiselib', ['NoSuchError']
+    # two modules, one validator, the same signature text `create(item: 'Item')` - the classes differ
+    for p in ([{'name': 'ann'}], {'item': {'name': 'bob', 'sku': 3}}):
+        yield 'same-signature-text-in-two-modules', 'users.create', p
+    for p in ([{'sku': 5}], {'item': {'sku': 6, 'qty': 2}}, [{'sku': 7, 'name': 'n'}]):
+        yield 'same-signature-text-in-two-modules', 'orders.create', p
+    for p in ([{'sku': 5}], [{}], [[1]], {'item': None}, [], {'it': {'name': 'x'}}):
+        yield 'unbound', 'users.create', p
+    for p in ([{'name': 'ann'}], [{'qty': 2}], ['x'], [], [{'sku': 1}, 2]):
+        yield 'unbound', 'orders.create', p
     for kind in KEYED_KINDS:
         yield 'mapping-with-non-string-keys', 'keyed', [kind]
         yield 'mapping-with-non-string-keys', 'keyed', {'kind': kind, 'how': 'error'}
